@@ -146,6 +146,9 @@ pub struct World {
     pub author_verified: Option<PublicKey>, // verify_rumor_author returned Ok for this pubkey
     pub merges: nat,                        // number of MLS merges performed in this call
     pub is_better_result: Option<(GroupId, u64, u64, EventId, bool)>, // last is_better_candidate(group, epoch, ts, id) -> result
+    // append-only logs (only the snapshot-manager shims append; every contract preserves them as prefixes)
+    pub better_queries: Seq<(GroupId, u64, u64, EventId)>,   // every is_better_candidate(group, epoch, ts, id) call
+    pub rollback_attempts: Seq<(GroupId, u64)>,               // every rollback_to_epoch(group, epoch) call
     pub rolled_back_to: Option<u64>,        // rollback_to_epoch succeeded for this epoch in this call
     pub invalidated_after: Option<u64>,     // invalidate_messages_after_epoch called with this epoch
     pub invalidated_processed_after: Option<u64>,
@@ -312,6 +315,20 @@ impl MlsGroup {
                 && *final(w) == (World { mls: old(w).mls.insert(old(self).view().group_id, final(self).view()), merges: old(w).merges + 1, ..*old(w) }),
             r is Err ==> final(self).view() == old(self).view() && *final(w) == *old(w),
     { unimplemented!() }
+}
+
+// ---- group contexts (assumed OpenMLS API): the current one, and the one a staged commit would install
+#[verifier::external_body]
+pub struct GroupContext { _p: u8 }
+impl GroupContext { pub uninterp spec fn ext(&self) -> ExtData; }
+impl StagedCommit {
+    pub uninterp spec fn new_ctx_ext(&self) -> ExtData;   // group data the commit would install (unrelated to the current one)
+    #[verifier::external_body]
+    pub fn group_context(&self) -> (r: &GroupContext) ensures r.ext() == self.new_ctx_ext() { unimplemented!() }
+}
+impl MlsGroup {
+    #[verifier::external_body]
+    pub fn export_group_context(&self) -> (r: &GroupContext) ensures r.ext() == self.view().ext { unimplemented!() }
 }
 
 // ---- members and credentials (assumed OpenMLS API)
@@ -515,6 +532,13 @@ pub mod extension {
                     r is Ok ==> ext_fields(r->Ok_0, group.view().ext)
         { unimplemented!() }
     }
+    impl NostrGroupDataExtension {
+        // same decoder applied to an arbitrary group context (e.g. the one a staged commit would install)
+        #[verifier::external_body]
+        pub fn from_group_context(ctx: &GroupContext) -> (r: Result<NostrGroupDataExtension, Error>)
+            ensures (r is Ok) == ext_valid(ctx.ext()), r is Ok ==> ext_fields(r->Ok_0, ctx.ext())
+        { unimplemented!() }
+    }
     pub open spec fn ext_fields(x: NostrGroupDataExtension, e: ExtData) -> bool {
         x.name == ext_name(e) && x.description == ext_description(e) && x.admins == ext_admins(e) && x.relays == ext_relays(e)
         && x.image_hash == ext_image_hash(e) && x.image_key == ext_image_key(e) && x.image_nonce == ext_image_nonce(e)
@@ -578,16 +602,16 @@ impl EpochSnapshotManager {
     #[verifier::external_body]
     pub fn is_better_candidate<S: MdkStorageProvider>(&self, storage: &S, group_id: &GroupId, candidate_epoch: u64, candidate_ts: u64, candidate_id: &EventId, Tracked(w): Tracked<&mut World>) -> (r: bool)
         ensures r == better_candidate(*old(w), *group_id, candidate_epoch, candidate_ts, *candidate_id),
-                *final(w) == (World { is_better_result: Some((*group_id, candidate_epoch, candidate_ts, *candidate_id, r)), ..*old(w) }),
+                *final(w) == (World { is_better_result: Some((*group_id, candidate_epoch, candidate_ts, *candidate_id, r)), better_queries: old(w).better_queries.push((*group_id, candidate_epoch, candidate_ts, *candidate_id)), ..*old(w) }),
     { unimplemented!() }
 
     #[verifier::external_body]
     pub fn rollback_to_epoch<S: MdkStorageProvider>(&self, storage: &S, group_id: &GroupId, target_epoch: u64, Tracked(w): Tracked<&mut World>) -> (r: Result<(), Error>)
         requires old(w).is_better_result is Some && old(w).is_better_result->Some_0.0 == *group_id && old(w).is_better_result->Some_0.1 == target_epoch && old(w).is_better_result->Some_0.4, //@L[error_recovery.rollback_only_if_better|C01,C07|callsite-requires]
         ensures
-            r is Ok ==> *final(w) == (World { rolled_back_to: Some(target_epoch),
+            r is Ok ==> *final(w) == (World { rolled_back_to: Some(target_epoch), rollback_attempts: old(w).rollback_attempts.push((*group_id, target_epoch)),
                 groups: final(w).groups, relays: final(w).relays, exporter_secrets: final(w).exporter_secrets, mls: final(w).mls, snapshots: final(w).snapshots, ..*old(w) }),
-            r is Err ==> *final(w) == *old(w),
+            r is Err ==> *final(w) == (World { rollback_attempts: old(w).rollback_attempts.push((*group_id, target_epoch)), ..*old(w) }),
     { unimplemented!() }
 }
 // result of the MIP-03 comparison (decided in unit mip03) — uninterpreted at this level
